@@ -52,7 +52,13 @@ func Func(p *load.Program, pkgSuffix, name string) *ssa.Function {
 	if sp == nil {
 		return nil
 	}
-	return sp.Func(name)
+	if f := sp.Func(name); f != nil {
+		return f
+	}
+	if a := Actual(p, pkgSuffix, name); a != name {
+		return sp.Func(a)
+	}
+	return nil
 }
 
 // Method returns the method (value or pointer receiver) typeName.method of a module package.
@@ -126,7 +132,7 @@ func QName(fn *ssa.Function) string {
 	}
 	if InModule(fn) {
 		s := PkgSuffix(fn)
-		n := fn.Name()
+		n := CanonName(fn)
 		if fn.Signature.Recv() != nil {
 			n = recvName(fn.Signature.Recv().Type()) + "." + n
 		}
